@@ -580,6 +580,21 @@ func c07Alterations() []c07Alteration {
 			return true
 		}},
 		{"sig-appended", func(m *udm.UCANModel, o *Prin) bool { m.S = append(append([]byte{}, m.S...), 0); return true }},
+		// the same (code, size, raw) framed with NON-MINIMAL varints: other signature bytes, other CID
+		{"sig-size-varint-padded", func(m *udm.UCANModel, o *Prin) bool {
+			sv := signature.Decode(m.S)
+			sz := uvarintBytes(uint64(len(sv.Raw())))
+			sz[len(sz)-1] |= 0x80
+			m.S = cat(uvarintBytes(sv.Code()), append(sz, 0x00), sv.Raw())
+			return true
+		}},
+		{"sig-code-varint-padded", func(m *udm.UCANModel, o *Prin) bool {
+			sv := signature.Decode(m.S)
+			cd := uvarintBytes(sv.Code())
+			cd[len(cd)-1] |= 0x80
+			m.S = cat(append(cd, 0x00), uvarintBytes(uint64(len(sv.Raw()))), sv.Raw())
+			return true
+		}},
 		{"sig-code", func(m *udm.UCANModel, o *Prin) bool {
 			// re-tag the signature with the other algorithm's code
 			s := append([]byte{}, m.S...)
@@ -704,6 +719,10 @@ func init() {
 			if mask&8 != 0 {
 				rawNnc = fmt.Sprintf("nonce-%d", r.Intn(1000))
 				opts = append(opts, delegation.WithNonce(rawNnc))
+			}
+			if mask&16 == 0 && i%9 == 4 {
+				// options given with DEGENERATE values: an empty (but non-nil) list of facts, an empty proof list
+				opts = append(opts, delegation.WithFacts([]ucan.FactBuilder{}), delegation.WithProof())
 			}
 			if mask&16 != 0 {
 				var facts []ucan.FactBuilder
